@@ -288,6 +288,31 @@ MANIFEST_TEXT["C02"] = {
     "design_ref": "DESIGN.md section 3 / C02",
 }
 
+PLAN["C03"] = {
+    "pkg": "c03",
+    "tests": [
+        {"name": "TestModifiers", "quick": (40000, 8), "thorough": (4000000, 16)},
+        {"name": "TestEngineContactEvents", "quick": (12000, 8), "thorough": (800000, 16)},
+    ],
+    "budget": {"quick": 600, "thorough": 5400},
+    "rule": "(i) direct: generated contact (any status, stale query-group membership, fields, 0-3 URNs, ticket) x modifier of all nine types "
+            "(URN lists of 1-4 entries mixing new/present/invalid/differently-normalised URNs for append/remove/set; group lists mixing "
+            "static and query groups; names and field values at, below and beyond MaxFieldChars with multi-byte cut) applied twice under a "
+            "frozen clock: modified <=> contact changed <=> a change event was logged, replay(before, events) == after, and the second "
+            "application is a complete no-op. (ii) engine: scenarios whose flows contain every contact-changing action, msg triggers/"
+            "resumes and contact refresh: replaying each sprint's events over the marshalled contact before the sprint (name, language, "
+            "status, timezone, URNs, fields, groups as a set, ticket, last_seen_on from the received message) equals the marshalled contact "
+            "after it. Non-trivial = any applied modifier case / a sprint with at least one contact change event; distinct by (modifier, "
+            "contact, limit) / (assets, contact, sprint).",
+    "assumptions": COMMON_ASSUMPTIONS + ["the replay model works on the engine's own marshalled contact JSON; group membership is compared as a set"],
+}
+MANIFEST_TEXT["C03"] = {
+    "technique": "property-based testing (rapid): reference event-replay model over the marshalled contact, checked for directly applied modifiers (twice, frozen clock) and for every sprint of generated engine scenarios",
+    "level_text": "Exploration: for every generated modifier and sprint the emitted events reproduced the contact exactly and modifier idempotence held.",
+    "level_note": "Trusts the harness's replay model (written from the property statement) and json.Marshal(contact) as the observable contact state.",
+    "design_ref": "DESIGN.md section 3 / C03",
+}
+
 # every property without a registered check is listed here with the reason (kept current as checks are added)
 NOT_APPLICABLE = [{"property_id": pid, "reason": "check not built yet in this round (planned in DESIGN.md); nothing is claimed for it"}
                   for pid in ALL_IDS if pid not in PLAN]
